@@ -22,6 +22,15 @@ VERIF = os.path.dirname(HERE)
 
 
 # ----------------------------------------------------------------------------------------------- running the real code
+def forget_crate(target_dir):
+    """cargo keys the freshness of a path crate on recorded file paths + mtimes; two scratch copies of the crate (rsync keeps
+    mtimes) can therefore be mistaken for one another. Dropping the crate's own fingerprints forces a rebuild of the crate
+    (dependencies stay cached)."""
+    import glob
+    for fp in glob.glob(os.path.join(target_dir, '**', '.fingerprint', 'noulith-*'), recursive=True):
+        shutil.rmtree(fp, ignore_errors=True)
+
+
 def build(repo, log=lambda *a: None):
     """debug build of a scratch copy of `repo`; returns (binary path, cleanup fn)"""
     tmp = tempfile.mkdtemp(prefix='noulith-replay.', dir=os.environ.get('VERIF_SCRATCH', '/var/tmp'))
@@ -34,6 +43,7 @@ def build(repo, log=lambda *a: None):
     os.makedirs(tdir, exist_ok=True)
     with open(os.path.join(tdir, '.verif-lock'), 'w') as lk:
         fcntl.flock(lk, fcntl.LOCK_EX)
+        forget_crate(tdir)
         r = subprocess.run(['cargo', 'build', '--offline'], cwd=tmp, env=env, capture_output=True, text=True)
         if r.returncode != 0:
             shutil.rmtree(tmp, ignore_errors=True)
